@@ -256,6 +256,14 @@ func cmdCheck(args []string) int {
 			results[i].Res = results[i].Obl.solve(dir, timeout*2, seed+1)
 		}
 	}
+	if os.Getenv("GOVC_SLOW") != "" {
+		for _, r := range results {
+			q := int64(max(r.Res.Queries, 1))
+			if r.Res.Ms/q > 3000 {
+				fmt.Fprintf(os.Stderr, "SLOW %6dms (%d queries) %s [%s]\n", r.Res.Ms, r.Res.Queries, r.Obl.Name, r.Res.Solver)
+			}
+		}
+	}
 	total, discharged, covers := 0, 0, 0
 	var samples []map[string]any
 	var solverMs int64
